@@ -26,16 +26,23 @@ def main():
         if os.path.exists(os.path.join(d, n)):
             notes += open(os.path.join(d, n)).read() + "\n"
     m = re.search(r"-run\s+'?\"?([A-Za-z0-9_/^$|]+)'?\"?\s+(\./[A-Za-z0-9_/.\-]+)", notes)
+    sub = ""
     if not m:
-        print(sid, "cannot parse run command"); sys.exit(2)
-    run, pkg = m.group(1), m.group(2).rstrip("/")
+        # a demonstration inside a nested module: "cd integration_tests && ... go test -run X ."
+        m2 = re.search(r"cd\s+([A-Za-z0-9_/.\-]+)\s+&&.*-run\s+'?\"?([A-Za-z0-9_/^$|]+)'?\"?\s+\.(\s|$)", notes)
+        if not m2:
+            print(sid, "cannot parse run command"); sys.exit(2)
+        sub, run, pkg = m2.group(1), m2.group(2), "."
+    else:
+        run, pkg = m.group(1), m.group(2).rstrip("/")
     demos = [f for f in glob.glob(os.path.join(d, "*_test.go"))]
-    wt = f"/tmp/seedconfirm-{sid}-{os.getpid()}"
-    subprocess.run(["git", "-C", "/repo", "worktree", "add", "--detach", wt, "HEAD"], stdout=subprocess.DEVNULL, stderr=subprocess.DEVNULL)
+    wt0 = f"/tmp/seedconfirm-{sid}-{os.getpid()}"
+    subprocess.run(["git", "-C", "/repo", "worktree", "add", "--detach", wt0, "HEAD"], stdout=subprocess.DEVNULL, stderr=subprocess.DEVNULL)
     res = {"head": subprocess.run(["git", "-C", "/repo", "rev-parse", "--short", "HEAD"], capture_output=True, text=True).stdout.strip(),
-           "demo_run": f"go test -count=1 -run {run} {pkg}"}
+           "demo_run": (f"cd {sub} && " if sub else "") + f"go test -count=1 -run {run} {pkg}"}
+    wt = os.path.join(wt0, sub) if sub else wt0
     try:
-        rc, out = sh(["git", "apply", os.path.join(d, "patch.diff")], cwd=wt)
+        rc, out = sh(["git", "apply", os.path.join(d, "patch.diff")], cwd=wt0)
         res["patch_applies"] = rc == 0
         if rc != 0:
             res["error"] = out[-500:]
@@ -55,14 +62,14 @@ def main():
         res["existing_tests_wall_s"] = round(time.time() - t0, 1)
         if rc != 0:
             res["existing_tests_excerpt"] = "\n".join([l for l in out.splitlines() if l.startswith("--- FAIL") or l.startswith("FAIL") or "panic:" in l][:6])
-        sh(["git", "apply", "-R", os.path.join(d, "patch.diff")], cwd=wt)
+        sh(["git", "apply", "-R", os.path.join(d, "patch.diff")], cwd=wt0)
         for f in demos:
             shutil.copy(f, os.path.join(wt, pkg))
         rc, out = sh(["go", "test", "-count=1", "-run", run, pkg], cwd=wt)
         res["demo_passes_without_patch"] = rc == 0
         return res
     finally:
-        subprocess.run(["git", "-C", "/repo", "worktree", "remove", "--force", wt], stdout=subprocess.DEVNULL, stderr=subprocess.DEVNULL)
+        subprocess.run(["git", "-C", "/repo", "worktree", "remove", "--force", wt0], stdout=subprocess.DEVNULL, stderr=subprocess.DEVNULL)
         json.dump(res, open(os.path.join(d, "confirmed.json"), "w"), indent=1)
         ok = all(res.get(k) for k in ("patch_applies", "builds_with_patch", "demo_fails_with_patch",
                                        "existing_tests_of_pkg_pass_with_patch", "demo_passes_without_patch"))
